@@ -56,7 +56,7 @@ func TestC10Boundary(t *testing.T) {
 			if long {
 				pos, tp = perptypes.Position_LONG, price0.MulInt64(int64(12+UniformDraw(rt, "tp", 60))).QuoInt64(10)
 			} else {
-				tp = price0.MulInt64(int64(30+UniformDraw(rt, "tps", 60))).QuoInt64(100)
+				tp = price0.MulInt64(int64(30 + UniformDraw(rt, "tps", 60))).QuoInt64(100)
 			}
 			open := &perptypes.MsgOpen{Creator: owner.Addr.String(), Position: pos, Leverage: lev, TradingAsset: ptypes.ATOM,
 				Collateral: sdk.NewInt64Coin(ptypes.BaseCurrency, int64(10_000_000+UniformDraw(rt, "coll", 2_000_000_000))), TakeProfitPrice: tp, StopLossPrice: sdkmath.LegacyZeroDec(), PoolId: 1}
